@@ -559,6 +559,20 @@ def check_same_edits(ctx, n):
 def run_case(ctx, i, rng):
     n = gen_ir.generate(rng, profile="any" if i % 2 else "edif", share=0.5, ndefs=rng.randint(3, 8),
                         top_child_ok=(i % 3 == 0), name_netlist=(i % 7 != 0))
+    if i % 4 == 1 and n.top_instance is not None and n.top_instance.parent is None and n.top_instance.reference is not None and \
+            n.top_instance.reference.library is not None:
+        # the top definition is ALSO instanced from outside the top hierarchy (a test bench that holds the design): the stand-alone
+        # top instance is then one of two references of its definition
+        topd_ = n.top_instance.reference
+        try:
+            bench_ = topd_.library.create_definition("BENCH_%d" % i)
+            dut_ = bench_.create_child("dut", reference=topd_)
+            bw_ = bench_.create_cable("bench_net", wires=1).wires[0]
+            for op_ in list(dut_.pins)[:2]:
+                bw_.connect_pin(op_)
+            ctx.count("top_definitions_instanced_from_outside")
+        except ValueError:
+            pass
     decorate(ctx, n, rng)
     if i % 2 == 1:
         edit_after_instancing(ctx, n, rng)
